@@ -5,7 +5,7 @@ package core
 // literal arrays and literal ranges, constant ranges, calls of functions that may be marked ConstExpr.
 
 // PureFns are the environment functions whose result depends on their arguments only.
-var PureFns = []string{"Sq", "Div", "Rep", "Neg", "IsPos", "Pick", "Join", "Half", "Len2", "Sum", "Coalesce", "PickE", "NilMask", "MkElem", "FirstOf", "CountAny"}
+var PureFns = []string{"Sq", "Div", "Rep", "Neg", "IsPos", "Pick", "Join", "Half", "Len2", "Sum", "Coalesce", "PickE", "NilMask", "MkElem", "FirstOf", "CountAny", "CountAny2"}
 
 var constInts = []int{0, 1, 2, 3, 4, 5, 7, 10, 100, 1000, 65535, 65536, 999999, 1000000, 1000001, 2147483647, 4294967296, 9223372036854775807}
 
@@ -300,6 +300,10 @@ func (g *Gen) PureCall(ty *Ty, d int) *X {
 					g.Excluded["const-array-arg"]++
 					arr.A = append(arr.A, Var("I", TInt))
 				}
+				if g.coin("ca2") {
+					// the array literal comes after an argument that is itself a call
+					return Call("CountAny2", TInt, Call("Sq", TInt, LitInt(g.pick(4, "ca2sq"))), arr)
+				}
 				return Call("CountAny", TInt, arr)
 			}
 		case KBool:
@@ -445,11 +449,61 @@ func (g *Gen) AfterInner(d int) *X {
 	}
 }
 
+// StrArrays: two all-string (or all-int) array literals in one program whose elements would coincide if they were
+// joined or printed ("a,b","c" / "a","b,c"; "x y" / "x","y"; 12,3 / 1,23): each literal is its own value.
+func (g *Gen) StrArrays() *X {
+	fam := [][]string{{"a,b", "c"}, {"a", "b,c"}, {"x y"}, {"x", "y"}, {"a", "b", "c"}, {"a,b,c"}, {"", "a"}, {"a", ""}, {"a"}, {"x y", "y"}, {"x", "y y"}}
+	mkS := func(l string) *X {
+		ss := fam[g.pick(len(fam), l)]
+		a := Arr(SeqOf(TStr, RepIface))
+		for _, e := range ss {
+			a.A = append(a.A, LitStr(e))
+		}
+		return a
+	}
+	ifam := [][]int{{12, 3}, {1, 23}, {1, 2, 3}, {123}, {1, 2}, {12}}
+	mkI := func(l string) *X {
+		is := ifam[g.pick(len(ifam), l)]
+		a := Arr(TAInt)
+		for _, e := range is {
+			a.A = append(a.A, LitInt(e))
+		}
+		return a
+	}
+	if g.pick(4, "saint") == 0 {
+		a1, a2 := mkI("sa1"), mkI("sa2")
+		switch g.pick(3, "saik") {
+		case 0:
+			return Bin("+", Idx(a1, LitInt(0), TInt), Idx(a2, LitInt(0), TInt), TInt)
+		case 1:
+			return Arr(SeqOf(TAInt, RepIface), a1, a2)
+		default:
+			return Bin("+", Len(a1), Bin("*", Len(a2), LitInt(10), TInt), TInt)
+		}
+	}
+	a1, a2 := mkS("sa1"), mkS("sa2")
+	switch g.pick(5, "sak") {
+	case 0:
+		return Bin("+", Len(a1), Bin("*", Len(a2), LitInt(10), TInt), TInt)
+	case 1:
+		return Arr(SeqOf(SeqOf(TStr, RepIface), RepIface), a1, a2)
+	case 2:
+		return Bin("+", Idx(a1, LitInt(0), TStr), Idx(a2, LitInt(0), TStr), TStr)
+	case 3:
+		needle := []*X{Var("S", TStr), LitStr("y"), LitStr("b,c"), Var("S2", TStr)}[g.pick(4, "san")]
+		return Bin("or", Bin("in", needle, a1, TBool), Bin("in", needle.Clone(), a2, TBool), TBool)
+	default:
+		return Cond(Var("B", TBool), a1, a2, SeqOf(TStr, RepIface))
+	}
+}
+
 // ConstRoot: a whole program for the rewrite-biased classes.
 func (g *Gen) ConstRoot() *X {
 	g.ConstBias = 40 + g.pick(50, "bias")
 	d := 2 + g.pick(3, "cdepth")
-	switch g.pick(13, "croot") {
+	switch g.pick(14, "croot") {
+	case 13:
+		return g.StrArrays()
 	case 12:
 		return g.AfterInner(d)
 	case 0:
